@@ -496,6 +496,7 @@ func checkC04(c *Ctx) {
 		} else {
 			r.Ok("C04/NONEMPTY", shortFn(local), p.Pos(local.Pos()), "%d success returns, base name provably non-empty", n)
 		}
+		c.c04FirstPlus(local)
 	}
 }
 
@@ -627,4 +628,188 @@ func (c *Ctx) c04URLVars(handlers []*ssa.Function, mbfa *types.Func) {
 	} else {
 		r.Ok("C04/ONE-AUTHORITY", "web.Context.Vars", p.Pos(newCtx.Pos()), "Context.Vars = mux.Vars(req), never modified")
 	}
+}
+
+// c04FirstPlus: the +extension is everything from the FIRST '+' on; a base name cut at any
+// other '+' still depends on part of the extension and is not a fixed point of the naming
+// function ("a+b+c" → "a+b" → "a").
+func (c *Ctx) c04FirstPlus(local *ssa.Function) {
+	r, p := c.R, c.P
+	r.Rule("C04/PLUS/first", "the position at which the local-part canonicaliser cuts the +extension is the first occurrence of '+': a first-occurrence search (strings.Index*/Cut/SplitN(…,2)), or a scan variable that is assigned only while unset or whose assignment leaves the scan")
+	isPlus := func(v ssa.Value) bool {
+		if s, ok := eng.ConstString(v); ok {
+			return s == "+"
+		}
+		if k, ok := eng.ConstInt(v); ok {
+			return k == '+'
+		}
+		return false
+	}
+	n := 0
+	ord := map[string]int{}
+	var classify func(v ssa.Value, depth int) (string, string) // verdict ok|bad|unknown, why
+	busy := map[*ssa.Phi]bool{}
+	classify = func(v ssa.Value, depth int) (string, string) {
+		if depth > 8 {
+			return "unknown", "origin too deep"
+		}
+		v = eng.StripConv(v)
+		if ph, ok := v.(*ssa.Phi); ok {
+			if busy[ph] {
+				return "none", "" // a merge with the variable's own earlier value
+			}
+			busy[ph] = true
+			defer delete(busy, ph)
+		}
+		switch x := v.(type) {
+		case *ssa.Call:
+			name := eng.CalleeName(x.Common())
+			switch name {
+			case "strings.Index", "strings.IndexByte", "strings.IndexRune", "strings.IndexAny", "bytes.IndexByte", "bytes.Index":
+				if len(x.Call.Args) == 2 && isPlus(x.Call.Args[1]) {
+					return "ok", name + " of '+'"
+				}
+				return "none", ""
+			case "strings.LastIndex", "strings.LastIndexByte", "strings.LastIndexAny":
+				if len(x.Call.Args) == 2 && isPlus(x.Call.Args[1]) {
+					return "bad", name + " finds the last '+', not the first"
+				}
+				return "none", ""
+			}
+			return "none", ""
+		case *ssa.Phi:
+			// a scan variable: some edge carries a loop position
+			sawPos := false
+			for i, e := range x.Edges {
+				e = eng.StripConv(e)
+				if e == ssa.Value(x) {
+					continue
+				}
+				if k, isC := eng.ConstInt(e); isC && k < 0 {
+					continue // "unset"
+				}
+				if q, ok := e.(*ssa.Phi); ok && q != x && !isInductionLike(q) {
+					verdict, why := classify(q, depth+1)
+					if verdict == "bad" || verdict == "unknown" {
+						return verdict, why
+					}
+					if verdict == "ok" {
+						sawPos = true
+					}
+					continue
+				}
+				if _, isInd := e.(*ssa.Phi); isInd || isInductionLike(e) {
+					sawPos = true
+					// the assignment must happen only while unset, or leave the loop
+					pred := x.Block().Preds[i]
+					guarded := false
+					for _, b := range pred.Parent().Blocks {
+						for k := 0; k < len(b.Succs) && len(b.Succs) == 2; k++ {
+							rel, ok := eng.EdgeRel(b, k)
+							if !ok || !eng.EdgeDominates(b, k, pred) && !(b == pred) {
+								continue
+							}
+							if rx, isPhi := eng.StripConv(rel.X).(*ssa.Phi); eng.StripConv(rel.X) == ssa.Value(x) || isPhiAlias(rel.X, x) || isPhi && busy[rx] {
+								if kk, isC := eng.ConstInt(rel.Y); isC && ((rel.Op == token.LSS && kk <= 0) || (rel.Op == token.EQL && kk < 0) || (rel.Op == token.LEQ && kk < 0)) {
+									guarded = true
+								}
+							}
+						}
+					}
+					leaves := len(loopHeaders(pred)) > len(loopHeaders(x.Block()))
+					if !guarded && !leaves {
+						return "bad", "the scan overwrites the position at every '+', so the cut happens at the last one"
+					}
+					continue
+				}
+				verdict, why := classify(e, depth+1)
+				if verdict == "bad" || verdict == "unknown" {
+					return verdict, why
+				}
+				if verdict == "ok" {
+					sawPos = true
+				}
+			}
+			if sawPos {
+				return "ok", "scan position assigned only once"
+			}
+			return "none", ""
+		}
+		return "none", ""
+	}
+	eng.EachInstr(local, func(in ssa.Instruction) {
+		sl, ok := in.(*ssa.Slice)
+		if !ok || sl.High == nil || !isString(sl.X.Type()) {
+			return
+		}
+		if _, isC := eng.ConstInt(sl.High); isC {
+			return
+		}
+		verdict, why := classify(sl.High, 0)
+		if verdict == "none" {
+			return // not a '+' cut
+		}
+		n++
+		cons := siteCons(p, in, ord, "cut")
+		switch verdict {
+		case "ok":
+			r.Ok("C04/PLUS/first", cons, p.InstrPos(in), "base name ends at the first '+' (%s)", why)
+		case "bad":
+			r.Bad("C04/PLUS/first", cons, p.InstrPos(in), "%s: \"a+b+c\" is named \"a+b\", which depends on the extension and is not a fixed point (asking for \"a+b\" reads \"a\")", why)
+		default:
+			r.Undecided("C04/PLUS/first", cons, p.InstrPos(in), "cannot tell which '+' the cut position refers to (%s)", why)
+		}
+	})
+	if n == 0 {
+		// Cut/SplitN forms have no slice: accept when the function calls one of them with "+"
+		eng.EachInstr(local, func(in ssa.Instruction) {
+			if call, ok := in.(*ssa.Call); ok {
+				switch eng.CalleeName(call.Common()) {
+				case "strings.Cut", "strings.SplitN", "strings.Split":
+					if len(call.Call.Args) >= 2 && isPlus(call.Call.Args[1]) {
+						n++
+						r.Ok("C04/PLUS/first", siteCons(p, in, ord, "cut"), p.InstrPos(in), "base name is the part before the first '+' (%s)", eng.CalleeName(call.Common()))
+					}
+				}
+			}
+		})
+	}
+	r.Floor("C04/PLUS/first", "+extension cuts in the local-part canonicaliser", n, 1)
+}
+
+// isInductionLike: v is a loop position: a phi advanced by +1, or such a phi plus a constant.
+func isInductionLike(v ssa.Value) bool {
+	if bo, ok := v.(*ssa.BinOp); ok && bo.Op == token.ADD {
+		if _, isC := eng.ConstInt(bo.Y); isC {
+			v = bo.X
+		}
+	}
+	ph, ok := v.(*ssa.Phi)
+	if !ok {
+		return false
+	}
+	for _, e := range ph.Edges {
+		if bo, ok := e.(*ssa.BinOp); ok && bo.Op == token.ADD && bo.X == ssa.Value(ph) {
+			if k, isC := eng.ConstInt(bo.Y); isC && k == 1 {
+				return true
+			}
+		}
+	}
+	return false
+}
+
+// isPhiAlias: v is x or a phi that merges x with itself.
+func isPhiAlias(v ssa.Value, x *ssa.Phi) bool {
+	v = eng.StripConv(v)
+	if v == ssa.Value(x) {
+		return true
+	}
+	if q, ok := v.(*ssa.Phi); ok {
+		for _, e := range q.Edges {
+			if e == ssa.Value(x) {
+				return true
+			}
+		}
+	}
+	return false
 }
